@@ -323,25 +323,65 @@ def emsa_pss_ok(alg, hLen, mHash, em, emBits, sLen, dbMask):
 
 
 def emsa_pss_consistent(alg, hLen, mHash, em, emBits, sLen, dbMask):
-    """steps 4-14 of 9.1.2 for an EM of emLen >= hLen + sLen + 2 octets"""
+    """steps 4-14 of 9.1.2 for an EM of emLen >= hLen + sLen + 2 octets: "consistent" iff none of the steps 4, 6, 10, 14 outputs
+    "inconsistent" (written as one conjunction: all([...]) evaluates without forking)"""
     emLen = ceil8(emBits)
-    if nth(em, len(em) - 1) != 188:                                 # step 4: the rightmost octet of EM is 0xbc
-        return False
     maskedDB = em[:emLen - hLen - 1]                                # step 5: EM = maskedDB || H || 0xbc
     H = em[emLen - hLen - 1:len(em) - 1]
     m = left_mask(8 * emLen - emBits)
-    if nth(maskedDB, 0) & m != 0:                                   # step 6: leftmost 8 emLen - emBits bits of maskedDB not all zero
-        return False
     DB = clear_left(xor(maskedDB, dbMask), m)                       # steps 7-9
-    if not DB.startswith(rep(bytes(1), emLen - hLen - sLen - 2) + b'\x01'):    # step 10: DB = PS || 0x01 || salt, PS zero octets
-        return False
     salt = DB[len(DB) - sLen:]                                      # step 11: the last sLen octets of DB
-    return H == emsa_pss_H(alg, mHash, salt)                        # steps 12-14
+    return all([nth(em, len(em) - 1) == 188,                        # step 4: the rightmost octet of EM is 0xbc
+                nth(maskedDB, 0) & m == 0,                          # step 6: the leftmost 8 emLen - emBits bits of maskedDB are zero
+                DB.startswith(rep(bytes(1), emLen - hLen - sLen - 2) + b'\x01'),   # step 10: DB = PS || 0x01 || salt, PS zero octets
+                H == emsa_pss_H(alg, mHash, salt)])                 # steps 12-14
 
 
 def pss_H(em, emBits, hLen):
     """the field H of an encoded message EM = maskedDB || H || 0xbc (9.1.2 step 5)"""
     return em[ceil8(emBits) - hLen - 1:len(em) - 1]
+
+
+def pss_mgf(mgfunc, alg, seed, n):
+    """the mask generation function of an RSASSA-PSS scheme object: the caller's mask_func (any callable) if one was given,
+    MGF1 with the hash function of the message otherwise"""
+    if mgfunc is None:
+        return mgf1(alg, seed, n)
+    return mgfunc(seed, n)
+
+
+def pss_em(alg, hLen, mHash, modBits, salt, mgfunc):
+    """RSASSA-PSS-SIGN step 1 (8.1.1): EM = EMSA-PSS-ENCODE(M, modBits - 1) for the hash value mHash and the given salt"""
+    emBits = modBits - 1
+    H = emsa_pss_H(alg, mHash, salt)
+    return emsa_pss_em(alg, hLen, mHash, emBits, salt, pss_mgf(mgfunc, alg, H, ceil8(emBits) - hLen - 1))
+
+
+def pss_fault(EM, d, e, n):
+    """the library's fault check after RSASP1: s^e mod n != m for m = OS2IP(EM), s = m^d mod n"""
+    return be(EM) != pow(pow(be(EM), d, n), e, n)
+
+
+def pss_signature(EM, d, n, k):
+    """RSASSA-PSS-SIGN steps 2a-2c (8.1.1): S = I2OSP(RSASP1(K, OS2IP(EM)), k)"""
+    return i2osp(pow(be(EM), d, n), k)
+
+
+def pss_accepts(alg, hLen, mHash, S, n, e, sLen, mgfunc):
+    """RSASSA-PSS-VERIFY (8.1.2) outputs "valid signature": len(S) == k (step 1), s = OS2IP(S) < n (RSAVP1), m = s^e mod n
+    < 256^emLen (I2OSP, step 2c), and EMSA-PSS-VERIFY(M, EM = I2OSP(m, emLen), modBits - 1) == "consistent" (steps 3-4)"""
+    modBits = mathint.size_in_bits(n)
+    emBits = modBits - 1
+    emLen = ceil8(emBits)
+    if len(S) != (modBits - 1) // 8 + 1:
+        return False
+    if be(S) >= n:
+        return False
+    m = pow(be(S), e, n)
+    if m >= pow2(8 * emLen):
+        return False
+    EM = i2osp(m, emLen)
+    return emsa_pss_ok(alg, hLen, mHash, EM, emBits, sLen, pss_mgf(mgfunc, alg, pss_H(EM, emBits, hLen), emLen - hLen - 1))
 
 
 def first_nonzero(s):
